@@ -276,6 +276,17 @@ func commentCarve(fs *mon.Findings, f *syntax.File, o POpts) string {
 				}
 			}
 		case *syntax.CmdSubst:
+			// a comment inside a substitution that sits in a redirection or an
+			// argument, together with a comment after the word
+			for _, c := range comments {
+				if c.Hash.After(x.Left) && x.Right.After(c.Hash) {
+					for _, c2 := range comments {
+						if c2.Hash.After(x.Right) && c2.Hash.Line() == x.Right.Line() {
+							hit("C05-comment-inside-a-substitution-and-after-its-word")
+						}
+					}
+				}
+			}
 			if o.Simplify && len(x.Stmts) == 1 {
 				if _, ok := x.Stmts[0].Cmd.(*syntax.Subshell); ok {
 					for _, c := range comments {
